@@ -1,0 +1,42 @@
+//go:build verif
+
+package redisemu
+
+// C04: hash command handlers on top of the verified dictionary.
+
+// HSET / HMSET / HSETNX share one handler body; the option flags it was
+// called with must be the ones the table worker runs under (HSETNX = NX).
+//@ func hsetCommon
+//@ prop C04
+//@ safetyprop C13
+//@ requires ctx != nil && ctx.dsc != nil && dscOK(ctx.dsc)
+//@ requires [C08,C16] unlocked: !held && lockMode(ctx.dsc)
+//@ requires !mutated && !bumped && !removedKey
+//@ modifies *
+//@ ensures [C04] options.passed: gHashOptions == options
+//@ loop 1 invariant len(fieldNames) == len(values)
+
+// HRANDFIELD with a negative count: exactly |count| picks, each an existing field with its value
+//@ func redisDict.pickRandomItems
+//@ prop C04 C08 C16
+//@ safetyprop C13
+//@ requires rd != nil && count >= 0
+//@ requires [C08,C16] locked: held
+//@ requires free wf: dictRepr(rd)
+//@ modifies alloc
+//@ loop 1 invariant len(items) == i && 0 <= i && i <= count
+//@ loop 1 invariant [C04] members: allsel(k, 0, len(items), items[k] != nil && rd.vdom[items[k].key] && rd.vval[items[k].key] == items[k].value)
+//@ loop 2 invariant len(items) == i && i < count
+//@ loop 2 invariant [C04] members: allsel(k, 0, len(items), items[k] != nil && rd.vdom[items[k].key] && rd.vval[items[k].key] == items[k].value)
+//@ ensures [C04] exact: len(items) == count
+//@ ensures [C04] members: allsel(k, 0, len(items), items[k] != nil && rd.vdom[items[k].key] && rd.vval[items[k].key] == items[k].value)
+
+// C02 / C13: SETRANGE validates the offset before the store method sizes anything by it
+//@ func fnSetRange
+//@ prop C02
+//@ safetyprop C13
+//@ requires ctx != nil && ctx.dsc != nil && dscOK(ctx.dsc)
+//@ requires [C08,C16] unlocked: !held && lockMode(ctx.dsc)
+//@ requires !mutated && !bumped && !removedKey
+//@ modifies *
+//@ ensures [C02] negative: old(istype(args["offset"], int64) && unbox(args["offset"], int64) < 0) ==> istype(output.data, respErrorString) && !mutated
